@@ -138,7 +138,7 @@ def harvest(out):
     """SCHED lines printed by the model checker -> list of dicts {p, steps}"""
     res = []
     seen = set()
-    for m in re.finditer(r'^<<"SCHED", "(.*)">>$', out, re.M):
+    for m in re.finditer(r'<<\s*"SCHED",\s*"((?:[^"\\]|\\.)*)"\s*>>', out, re.S):
         s = m.group(1).replace('\\"', '"').replace("\\\\", "\\")
         if s in seen:
             continue
@@ -419,9 +419,39 @@ class Run:
             raise SystemExit(2)
 
 
+def tlc_simulate(spec, cfg_text, num, depth, seed, timeout=600):
+    d = os.path.join(WORK, "tlc")
+    os.makedirs(d, exist_ok=True)
+    cfg = os.path.join(d, f"{spec}_sim_{os.getpid()}.cfg")
+    with open(cfg, "w") as f:
+        f.write(cfg_text)
+    meta = os.path.join(d, f"md_sim_{os.getpid()}")
+    rc, out = sh(["tlc", "-workers", "1", "-simulate", f"num={num}", "-depth", str(depth), "-seed", str(seed),
+                  "-metadir", meta, "-cleanup", "-noGenerateSpecTE", "-config", cfg,
+                  os.path.join(SPEC, spec + ".tla")], timeout=timeout, cwd=SPEC)
+    shutil.rmtree(meta, ignore_errors=True)
+    os.remove(cfg)
+    if rc == 124:
+        raise ToolError("TLC simulation timed out")
+    if "Error:" in out and "SCHED" not in out:
+        raise ToolError("TLC simulation failed:\n" + out[-2000:])
+    return out
+
+
 def replay(path):
     """re-execute the steps of a replay file on the current tree and validate the fresh trace"""
     rep = json.load(open(path))
+    if rep.get("kind") == "mt":
+        build_harness()
+        d = os.path.join(WORK, "replay")
+        cp, op = os.path.join(d, "mt.cases"), os.path.join(d, "mt.out")
+        with open(cp, "w") as f:
+            f.write(json.dumps(rep["case"]) + "\n")
+        sh([BIN, "mt", cp, op], timeout=120)
+        r = json.loads(open(op).readline())
+        print(json.dumps(r, indent=1)[:6000])
+        print("replay: outcome", "EQUALS" if r["ok"] else "DIFFERS FROM", "the sequential reference")
+        return 0 if r["ok"] else 1
     tr = rep["trace"]
     head, end = tr[0], tr[-1]
     case = {"name": "replay", "host": head["host"], "progs": head["progs"], "follow": head.get("follow", {}),
